@@ -1,0 +1,45 @@
+//go:build verif
+
+package compiler
+
+import (
+	"bytes"
+	"fmt"
+	"go/token"
+
+	"github.com/gopherjs/gopherjs/internal/sourcemapx"
+)
+
+// This file is only compiled with the `verif` build tag. It exposes the real
+// source map hint encoder and the real whitespace remover to the external
+// runtime-monitoring harness, which can't import internal packages.
+
+// VerifHintMagic is the magic byte that introduces an inline source map hint.
+const VerifHintMagic = sourcemapx.HintMagic
+
+// VerifPosHint returns a position hint encoded exactly the way
+// funcContext.writePos() encodes it.
+func VerifPosHint(pos token.Pos) []byte {
+	h := sourcemapx.Hint{}
+	if err := h.Pack(pos); err != nil {
+		panic(fmt.Errorf("failed to pack source map position: %w", err))
+	}
+	buf := &bytes.Buffer{}
+	if _, err := h.WriteTo(buf); err != nil {
+		panic(fmt.Errorf("failed to write source map hint: %w", err))
+	}
+	return buf.Bytes()
+}
+
+// VerifIdentHint returns an identifier hint encoded exactly the way
+// sourcemapx.Identifier.EncodeHint() encodes it (the generated identifier
+// itself is not part of the result).
+func VerifIdentHint(name, origName string, pos token.Pos) []byte {
+	id := sourcemapx.Identifier{Name: name, OriginalName: origName, OriginalPos: pos}
+	return []byte(id.EncodeHint())
+}
+
+// VerifRemoveWhitespace calls the real removeWhitespace.
+func VerifRemoveWhitespace(b []byte, minify bool) []byte {
+	return removeWhitespace(b, minify)
+}
